@@ -954,6 +954,7 @@ close(int fd) {
 
 /* ------------------------------------------------------------------------------------------ */
 /* servicing + generic scheduler                                                               */
+int ns_check_prepare = 1;
 unsigned
 ns_prepare_all(void) {
   unsigned best = 0;
@@ -962,6 +963,19 @@ ns_prepare_all(void) {
     unsigned n = 0;
     unsigned t = coap_io_prepare_io(g_ctxs[i], socks, 64, &n, ns_ticks());
     ns_last_prepare[i] = t;
+#ifndef COAP_EPOLL_SUPPORT
+    /* contract of coap_io_prepare_io(): the value returned covers every timer the library keeps; an application that
+     * sleeps that long must not oversleep the next retransmission in the send queue (0 = "nothing pending") */
+    if (ns_check_prepare && g_ctxs[i]->sendqueue) {
+      coap_tick_t now = ns_ticks();
+      coap_tick_t due = g_ctxs[i]->sendqueue_basetime + g_ctxs[i]->sendqueue->t;
+      unsigned long left_ms = due > now ? (unsigned long)((due - now) * 1000 / COAP_TICKS_PER_SECOND) : 0;
+      if (t == 0 || t > left_ms + 1)
+        vx_fail(t == 0 ? "prepare-io:returns-0-with-queued-confirmable" : "prepare-io:timeout-later-than-next-retransmission",
+                "coap_io_prepare_io() returned %u ms although the head of the send queue (mid %04x) is due in %lu ms", t,
+                (unsigned)g_ctxs[i]->sendqueue->id & 0xffff, left_ms);
+    }
+#endif
     if (t && (!best || t < best))
       best = t;
   }
